@@ -94,7 +94,10 @@ func (x *Exec) evalCall(env *SpecEnv, e *ECall) SVal {
 	case "allocated":
 		a := arg(0)
 		r := x.flatten(a.V)[0]
-		return SVal{VScalar{And(Lt(IntLit(0), r), Le(r, env.st.wm))}, boolT}
+		if sl, ok := a.V.(VSlice); ok {
+			r = sl.Arr
+		}
+		return SVal{VScalar{And(Le(IntLit(0), r), Le(r, env.st.wm))}, boolT}
 	case "sbase":
 		s := arg(0).V.(VStr)
 		return SVal{VStr{s.Base, IntLit(0), x.slen(s.Base)}, stringT}
@@ -220,6 +223,33 @@ func (x *Exec) evalCall(env *SpecEnv, e *ECall) SVal {
 		s := arg(0).V.(VStr)
 		t := App("tolower", SStr, x.strTerm(s))
 		return SVal{VStr{t, IntLit(0), x.slen(t)}, stringT}
+	case "beq":
+		// beq(a, b): the two byte strings have the same length and bytes (strings or []byte)
+		a, b := arg(0), arg(1)
+		sa := x.specConvert(env, a, stringT).V.(VStr)
+		sb := x.specConvert(env, b, stringT).V.(VStr)
+		x.nfresh++
+		k := Term{fmt.Sprintf("q.bk!%d", x.nfresh), SInt}
+		ea, eb := x.sat(sa.Base, At(sa.Off, k)), x.sat(sb.Base, At(sb.Off, k))
+		return SVal{VScalar{And(Eq(sa.Len, sb.Len), Term{fmt.Sprintf("(forall ((%s Int)) (! (=> (and (<= 0 %s) (< %s %s)) (= %s %s)) :pattern (%s) :pattern (%s)))", k.S, k.S, k.S, sa.Len.S, ea.S, eb.S, ea.S, eb.S), SBool})}, boolT}
+	case "any":
+		a := arg(0)
+		if i, ok := a.V.(VIface); ok {
+			return SVal{i, goT(types.NewInterfaceType(nil, nil))}
+		}
+		return SVal{x.makeIfaceQuiet(a.V, a.T.G), goT(types.NewInterfaceType(nil, nil))}
+	case "hasprefix":
+		// hasprefix(s, "literal")
+		sv, ok := arg(0).V.(VStr)
+		lit, ok2 := e.Args[1].(*EStrLit)
+		if !ok || !ok2 {
+			sfail("hasprefix(s, \"literal\")")
+		}
+		conj := []Term{Ge(sv.Len, IntLit(int64(len(lit.Val))))}
+		for i := 0; i < len(lit.Val); i++ {
+			conj = append(conj, Eq(x.sat(sv.Base, At(sv.Off, IntLit(int64(i)))), IntLit(int64(lit.Val[i]))))
+		}
+		return SVal{VScalar{And(conj...)}, boolT}
 	case "held":
 		return SVal{x.ghostGet(env.st, "held", VSet{x.emptySetTerm(SInt)}), &SType{Math: "set", Elem: intT}}
 	case "isnil":
@@ -323,7 +353,7 @@ func (x *Exec) specConvert(env *SpecEnv, a SVal, T *SType) SVal {
 				}
 				arr := x.heapGet(env.st, "E|uint8|", ArrSort(SInt, ArrSort(SInt, SInt)))
 				base := App("ofbytes", SStr, Select(arr, v.Arr), v.Off, v.Len)
-				return SVal{VStr{base, IntLit(0), v.Len}, T}
+				return SVal{VStr{base, IntLit(0), x.slen(base)}, T}
 			}
 		case t.Info()&types.IsInteger != 0:
 			if s, ok := a.V.(VScalar); ok {
@@ -375,8 +405,7 @@ func (x *Exec) makeIfaceQuiet(v Value, t types.Type) VIface {
 	if len(ls) == 1 && ls[0].Sort == SInt {
 		return VIface{tag, ts[0]}
 	}
-	sfail("interface conversion of a multi-word value in a contract")
-	return VIface{}
+	return VIface{tag, x.mkbox(t, ts)}
 }
 
 // ---------------------------------------------------------------------------
@@ -547,6 +576,18 @@ func (x *Exec) lemmaAxioms(st *State, pkg *types.Package) {
 	}
 	x.lemmasIn = true
 	x.lemmaStart = len(x.asserts)
+	// decimal literals parse to their value (facts about the trusted strconv model)
+	if x.specUsed["atoiOK"] {
+		for _, lit := range x.litOrder {
+			if isDecimalLit(lit) {
+				t := x.lits[lit]
+				x.assume(Term{"(spec.atoiOK " + t.S + ")", SBool})
+				if x.specUsed["atoiVal"] {
+					x.assume(Eq(Term{"(spec.atoiVal " + t.S + ")", SInt}, IntLitStr(normDec(lit))))
+				}
+			}
+		}
+	}
 	for _, lm := range x.C.Lemmas {
 		used := true
 		mentions := false
@@ -635,4 +676,32 @@ func (x *Exec) lemmaFormula(st *State, lm *Lemma) (t Term, ok bool) {
 		return body, true
 	}
 	return Term{fmt.Sprintf("(forall (%s) %s)", strings.Join(binders, " "), txt), SBool}, true
+}
+
+func isDecimalLit(s string) bool {
+	t := s
+	if strings.HasPrefix(t, "-") || strings.HasPrefix(t, "+") {
+		t = t[1:]
+	}
+	if len(t) == 0 || len(t) > 18 {
+		return false
+	}
+	for _, c := range t {
+		if c < '0' || c > '9' {
+			return false
+		}
+	}
+	return true
+}
+
+func normDec(s string) string {
+	neg := strings.HasPrefix(s, "-")
+	t := strings.TrimLeft(strings.TrimLeft(s, "+-"), "0")
+	if t == "" {
+		return "0"
+	}
+	if neg {
+		return "-" + t
+	}
+	return t
 }
